@@ -214,8 +214,11 @@ def cobsde_trace(ctx):
 
 def crcde_trace(ctx):
     cargo_build(ctx, "h_core")
-    n = ctx.pick(7, 60)
-    cmds = [([hbin("h_core"), "crc-de", "--n", str(n), "--seed", str(ctx.seed * 100 + i)] + (["--deep", "1"] if ctx.tier == "thorough" and i % 4 == 0 else []), f"crcde-{i}.ndjson")
+    # the bit-serial CRC model costs ~1 ms per corrupted case: thorough = 4x the frames, plus two shards with the
+    # exhaustive burst enumeration up to 12 bits on a few frames
+    n = ctx.pick(7, 28)
+    cmds = [([hbin("h_core"), "crc-de", "--n", str(n if not (ctx.tier == "thorough" and i < 2) else 4), "--seed", str(ctx.seed * 100 + i)]
+             + (["--deep", "1"] if ctx.tier == "thorough" and i < 2 else []), f"crcde-{i}.ndjson")
             for i in range(NSH)]
     return trace_stage(ctx, "crc-de", cmds, "Trace_Frame")
 
